@@ -1252,7 +1252,8 @@ sf_command	(SNDFILE *sndfile, int command, void *data, int datasize)
 
 				position = *((sf_count_t*) data) ;
 
-				if (sf_seek (sndfile, position, SEEK_SET) != position)
+				/* A failed seek returns -1 : a negative count must not be mistaken for a seek that got there. */
+				if (position < 0 || sf_seek (sndfile, position, SEEK_SET) != position)
 					return SF_TRUE ;
 
 				psf->sf.frames = position ;
